@@ -852,7 +852,7 @@ int main(int argc, char **argv)
     if ((e = getenv("VERIF_N"))) N_DOC = atoi(e);
     if (vf_g.replay) replay_main();
     int deaths = vf_run_workers(worker);
-    static char bound[1000];
+    static char bound[2200];
     snprintf(bound, sizeof bound,
              "every valid object- and array-rooted document with <= %d value tokens over 15 leaf classes (all four integer widths incl. INT64_MIN, empty / NUL-holding / "
              "2-byte-length strings, bytes, doubles, booleans) and names {\"\", \"a\", \"a\\0b\", \"a\\0c\", 0x80 0xff}, at max_depth needed and needed+3; carriers {\"a\":v}, [v], "
@@ -860,6 +860,14 @@ int main(int argc, char **argv)
              "patterns, every byte position x every byte value on 3 bases; string / bytes / name lengths %s; the valid corpus files of <= 500 bytes",
              N_DOC, vf_g.thorough ? 65536 : 2048, vf_g.thorough ? "EVERY integer representable in <= 4 bytes (2^32 values)" : "every integer in [-65536, 65535]",
              vf_g.thorough ? "0..70000 (all)" : "0..600 (all) and 32766..32769, 65535..65537, 70000");
+    snprintf(bound + strlen(bound), sizeof bound - strlen(bound),
+             "; also: names \"aab\" < \"ab\", \"temp_max\" / \"temp_min\", strings ending in bytes >= 0x80; +-(10^k + d) (k<=18, |d|<=1), 1020 sparse byte patterns as integers and doubles; lengths 4608, "
+             "4863, 49152, 65792, 65794, 98304, 131071..131073, 196608, 200000; nesting towers and wide containers (255..65537 members); every pair and triple of small sibling subtrees and "
+             "the pairs one level further down%s%s",
+             P_C10 ? "; each document also traversed by field lookups (a miss before every field), after a dive and a reset, and with the containers at level 0 / 1 / 2 handed to parser_to_writer" :
+             P_C05 ? "; each document written three times: plainly, with every payload staged inside the destination one byte ahead of where it lands, and with a claimed capacity of SIZE_MAX" :
+                     "; each document also traversed after a dive to its deepest level and a reset",
+             (P_C05 && vf_g.thorough) ? "; giant writes of INT32_MAX and INT32_MAX - 1 bytes (when >= 8 GiB of memory are free)" : "");
     static const char *const assumptions[] = {
         "the traversal is the canonical full depth-first one (enter everything); other navigation orders are C06's subject",
         "integers are exhaustive for the stated ranges, not for all 2^64 values; doubles for the stated bit-pattern alphabet",
